@@ -10,7 +10,8 @@ transmission (kitty: first command whose ``m`` is not 1; iTerm2: every command):
 
     tb64     number of base64 characters that were decoded (all chunks concatenated)
     pad      number of trailing ``=`` characters
-    dlen     decoded length (-1: not valid base64)
+    pad1     offset of the FIRST ``=`` character in the whole payload (-1: there is none)
+    dlen     length after STRICT base64 decoding (-1: not valid base64)
     ilen     length after zlib inflate, attempted iff the first chunk says o=z (-1: failed / n.a.)
     kind     sniffed container of an iTerm2 payload: png | jpeg | gif | webp | ... | bad
     isfile   1 iff the decoded bytes are byte-identical to the source file
@@ -38,7 +39,7 @@ from PIL import Image
 OPAQUE = {"1", "L", "RGB", "HSV", "CMYK"}
 PALETTE = {"P", "PA"}
 
-EXTRA = {"tb64": 0, "pad": 0, "isfile": 0, "imgmode": ""}
+EXTRA = {"tb64": 0, "pad": 0, "pad1": -1, "isfile": 0, "imgmode": ""}
 
 
 def mode_class(mode: str) -> str:
@@ -130,6 +131,7 @@ def project(gfx: list[dict], payloads: list[str], ref: Reference) -> list[dict]:
             whole = "".join(buf)
             buf, ctl, first = [], first, None
             e["tb64"] = len(whole)
+            e["pad1"] = whole.find("=")
             e["pad"], data = _b64(whole)
             raw = None
             if data is not None:
@@ -145,6 +147,7 @@ def project(gfx: list[dict], payloads: list[str], ref: Reference) -> list[dict]:
             done.append((e, raw, max(ctl["v"], 0), ctl["s"], mode))
         elif e["proto"] == "iterm2":
             e["tb64"] = len(text)
+            e["pad1"] = text.find("=")
             e["pad"], data = _b64(text)
             raw, rows, width, mode = None, 0, -1, ""
             if data is not None:
